@@ -195,6 +195,40 @@ def generate(repo, emit, src, func_body):
     # ---------------------------------------------------------------- String / Tuple buffer guards
     guards = []
     okg = True
+    tuple_assign_iter = None
+
+    def match_brace(text, i):
+        depth = 0
+        for j in range(i, len(text)):
+            if text[j] == '{':
+                depth += 1
+            elif text[j] == '}':
+                depth -= 1
+                if depth == 0:
+                    return j
+        return None
+
+    def block_path(text, pos):
+        st = []
+        for j in range(pos):
+            if text[j] == '{':
+                st.append(j)
+            elif text[j] == '}' and st:
+                st.pop()
+        return st
+
+    def guard_classes(body, sites):
+        """classes refused with ValueError on EVERY path to every site: a guard counts for a site only if it
+        stands before it in a block that encloses the site (a guard inside one branch does not protect another)"""
+        gs = [(g.start(), block_path(body, g.start()), sorted(c for c in (code(g.group(1)), code(g.group(2))) if c is not None))
+              for g in re.finditer(guard_re, body) if g.group(3) == 'ValueError']
+        result = None
+        for site in sites:
+            ps = block_path(body, site)
+            dom = [cl for (pos, pg, cl) in gs if pos < site and pg == ps[:len(pg)]]
+            cl = set(dom[-1]) if dom else set()
+            result = cl if result is None else (result & cl)
+        return sorted(result or [])
     guard_re = (r'if\s*\(\s*header\(self\)->alloc\s+is\s+\(var\)(Alloc\w+)\s+or\s+header\(self\)->alloc\s+is\s+\(var\)(Alloc\w+)\s*\)\s*\{\s*'
                 r'throw\(\s*(\w+)')
     for fname, field in (('src/String.c', r's->val'), ('src/Tuple.c', r't->items')):
@@ -207,11 +241,27 @@ def generate(repo, emit, src, func_body):
             touch = [x.start() for x in re.finditer(r'(?:free|realloc)\s*\(\s*%s\b' % field, body)]
             if not touch:
                 continue
-            first_mut = min(touch + [x.start() for x in re.finditer(r'\bmemmove\s*\(', body)])
-            g = re.search(guard_re, body)
-            classes = []
-            if g and g.start() < first_mut and g.group(3) == 'ValueError':
-                classes = sorted(c for c in (code(g.group(1)), code(g.group(2))) if c is not None)
+            sites = touch + [x.start() for x in re.finditer(r'\bmemmove\s*\(', body)]
+            classes = guard_classes(body, sites)
+            if name == 'Tuple_Assign':
+                # two branches: sources with Len+Get are copied by index, any other iterable is pushed item by item
+                br = re.search(r'if\s*\(\s*implements_method\(obj,\s*Len,\s*len\)\s*and\s*implements_method\(obj,\s*Get,\s*get\)\s*\)\s*\{', body)
+                iter_classes = None
+                if br:
+                    t0 = br.end() - 1
+                    t1 = match_brace(body, t0)
+                    el = re.match(r'\s*else\s*\{', body[t1 + 1:]) if t1 else None
+                    if el:
+                        e0 = t1 + 1 + el.end() - 1
+                        e1 = match_brace(body, e0)
+                        then_sites = [x for x in sites if t0 < x < t1]
+                        else_sites = [x for x in sites if e0 < x < e1]
+                        classes = guard_classes(body, then_sites) if then_sites else []
+                        if else_sites:
+                            iter_classes = guard_classes(body, else_sites)
+                        elif re.search(r'Tuple_Push\(self,', body[e0:e1]):
+                            iter_classes = 'via Tuple_Push'
+                tuple_assign_iter = iter_classes
             guards.append((name, classes))
     if len(guards) < 10:
         okg = False
@@ -223,6 +273,10 @@ def generate(repo, emit, src, func_body):
               'Tuple_Concat', 'Tuple_Resize'):
         emit('hdr_guard_' + n.lower(), ('Definition hdr_guard_%s : list nat := [%s].' % (n.lower(), '; '.join(map(str, gd[n]))))
              if n in gd else None)
+    if tuple_assign_iter == 'via Tuple_Push':
+        tuple_assign_iter = gd.get('Tuple_Push')
+    emit('hdr_guard_tuple_assign_iter', ('Definition hdr_guard_tuple_assign_iter : list nat := [%s].   (* Tuple_Assign, sources without Len+Get *)'
+                                         % '; '.join(map(str, tuple_assign_iter))) if tuple_assign_iter is not None else None)
     # every function that frees/reallocates the buffer is one the model knows
     emit('hdr_guards_count', 'Definition hdr_guards_count : nat := %d.' % len(guards))
     # Tuple_Rem reaches the buffer only through Tuple_Pop_At
@@ -273,12 +327,43 @@ def generate(repo, emit, src, func_body):
           and re.search(r'return\s+header_init\(\(struct Header\*\)\(\s*\(char\*\)item\s*\+\s*2\s*\*\s*sizeof\(var\)\),\s*l->type,', li)
           and len(re.findall(r'l->tsize\s*=\s*size\(l->type\);', li)) == len(re.findall(r'l->tsize\s*=', li)))
     tr = src('src/Tree.c')
+    # The key size enters the node layout at four sites: the calloc and the value's header_init in Tree_Alloc, the
+    # accessor Tree_Val, and the node copy in Tree_Rem.  Each may use m->ksize or a local rounded up to sizeof(var);
+    # which one is emitted per site (hdr_tree_*_kround) and the layout theorem demands that they agree.
+    KS = r'(m->ksize|[A-Za-z_]\w*)'
+
+    def kround(fn_body, expr):
+        """False: m->ksize itself; True: a local defined as <...Round...>(m->ksize); None: unrecognised"""
+        if expr is None:
+            return None
+        if expr == 'm->ksize':
+            return False
+        if fn_body and re.search(r'size_t\s+%s\s*=\s*\w*[Rr]ound\w*\(\s*m->ksize\s*\)\s*;' % re.escape(expr), fn_body):
+            return True
+        return None
+
+    def grp(m):
+        return m.group(1) if m else None
+
+    ta_b = func_body(tr, r'static\s+var\s+Tree_Alloc\s*\(\s*struct\s+Tree\*\s*m\s*\)\s*\{')
+    tv_b = func_body(tr, r'static\s+var\s+Tree_Val\s*\([^)]*\)\s*\{')
+    trm_b = func_body(tr, r'static\s+void\s+Tree_Rem\s*\([^)]*\)\s*\{')
+    sites4 = {
+        'hdr_tree_alloc_block_kround': kround(ta_b, grp(ta_b and re.search(
+            r'var\s+node\s*=\s*calloc\(1,\s*3\s*\*\s*sizeof\(var\)\s*\+\s*%s\s*\+\s*%s\s*\+\s*%s\s*\+\s*m->vsize\);' % (H, KS, H), ta_b))),
+        'hdr_tree_alloc_vhead_kround': kround(ta_b, grp(ta_b and re.search(
+            r'var\s+val\s*=\s*header_init\(\(struct Header\*\)\(\s*\(char\*\)node\s*\+\s*3\s*\*\s*sizeof\(var\)\s*\+\s*%s\s*\+\s*%s\),\s*m->vtype,' % (H, KS), ta_b))),
+        'hdr_tree_val_kround': kround(tv_b, grp(tv_b and re.search(
+            r'return\s+\(char\*\)node\s*\+\s*3\s*\*\s*sizeof\(var\)\s*\+\s*%s\s*\+\s*%s\s*\+\s*%s;' % (H, KS, H), tv_b))),
+        'hdr_tree_rem_copy_kround': kround(trm_b, grp(trm_b and re.search(
+            r'memcpy\(\s*\(char\*\)\w+\s*\+\s*3\s*\*\s*sizeof\(var\),\s*\(char\*\)\w+\s*\+\s*3\s*\*\s*sizeof\(var\),\s*%s\s*\+\s*%s\s*\+\s*%s\s*\+\s*m->vsize\);' % (H, KS, H), trm_b))),
+    }
+    for nm, v in sites4.items():
+        emit(nm, ('Definition %s : bool := %s.' % (nm, 'true' if v else 'false')) if v is not None else None)
     shape('hdr_lay_tree',
-          re.search(r'var\s+node\s*=\s*calloc\(1,\s*3\s*\*\s*sizeof\(var\)\s*\+\s*%s\s*\+\s*m->ksize\s*\+\s*%s\s*\+\s*m->vsize\);' % (H, H), tr)
+          all(v is not None for v in sites4.values())
           and re.search(r'var\s+key\s*=\s*header_init\(\(struct Header\*\)\(\s*\(char\*\)node\s*\+\s*3\s*\*\s*sizeof\(var\)\),\s*m->ktype,', tr)
-          and re.search(r'var\s+val\s*=\s*header_init\(\(struct Header\*\)\(\s*\(char\*\)node\s*\+\s*3\s*\*\s*sizeof\(var\)\s*\+\s*%s\s*\+\s*m->ksize\),\s*m->vtype,' % H, tr)
           and re.search(r'static\s+var\s+Tree_Key\([^)]*\)\s*\{\s*return\s+\(char\*\)node\s*\+\s*3\s*\*\s*sizeof\(var\)\s*\+\s*%s;\s*\}' % H, tr)
-          and re.search(r'static\s+var\s+Tree_Val\([^)]*\)\s*\{\s*return\s+\(char\*\)node\s*\+\s*3\s*\*\s*sizeof\(var\)\s*\+\s*%s\s*\+\s*m->ksize\s*\+\s*%s;\s*\}' % (H, H), tr)
           and len(re.findall(r'm->ksize\s*=\s*size\(m->ktype\);', tr)) == len(re.findall(r'm->ksize\s*=', tr))
           and len(re.findall(r'm->vsize\s*=\s*size\(m->vtype\);', tr)) == len(re.findall(r'm->vsize\s*=', tr)))
     ta = src('src/Table.c')
